@@ -87,6 +87,10 @@ func (r *runner) add(k string, n int) { r.mu.Lock(); r.stats[k] += n; r.mu.Unloc
 // judge applies the monitors to one completed history.
 func (r *runner) judge(s Script, h *HistRec) {
 	c := r.c
+	if h.Skipped {
+		r.add("histories_skipped_after_slow_failures", 1)
+		return
+	}
 	c.Eval(1)
 	r.mu.Lock()
 	for k, v := range h.Hooks {
@@ -467,6 +471,9 @@ func (r *runner) finish() {
 		} else {
 			c.Inconclusive("race detector report without a templ frame (harness): " + rc.Key)
 		}
+	}
+	if n := r.stats["histories_skipped_after_slow_failures"]; n > 0 && c.ViolationCount() == 0 {
+		c.Inconclusive(fmt.Sprintf("%d schedules were skipped after repeated watchdog firings", n))
 	}
 	c.Set("races_reported", len(races))
 	c.Set("races_in_templ", nt)
